@@ -8,9 +8,17 @@ import drv_session_common as common
 RULE = ("histories on real OIDC and OAuth2 providers (authorization, token, userinfo, introspection, revocation endpoints + "
         "revocation API, controlled clock): (a) every interleaving of the parse/process steps of 2 and 3 concurrent redemptions "
         "of one code (exhaustive), with same-client, cross-client and altered/missing redirect_uri variants, both flavours; "
-        "(b) random histories (length 15-60, 3 users x 3 clients, 45% honest next steps, replays, cross-client, expiry ticks). "
+        "(b) random histories (length 15-60, 3 users x 3 clients, 45% honest next steps, replays, cross-client, expiry ticks); "
+        "(c) every client has TWO registered redirect_uris and browsers come back: fixed and random histories in which a code is "
+        "still pending while a further authorization request arrives WITH the provider's session cookie of an earlier "
+        "authorization (identical request / other registered redirect_uri / narrower, wider, reordered scope / other client or "
+        "user / new or old state+nonce / cookie of a revoked, removed, expired session), after which every code is presented with "
+        "each registered redirect_uri; the oracle holds every exchange against the redirect_uri the harness SENT in the "
+        "authorization request that produced that very code. "
         "A history is non-trivial when at least one code exchange succeeds; distinct by content.")
-ASSUMPTIONS = ["token values are abstracted to minting-order identifiers (byte-level token formats are property C04)",
+ASSUMPTIONS = ["a provider whose usage rules are configured per client only sees no cookie-carrying authorization requests in the "
+               "model-compared histories (the grant it makes for such a request gets no usage rules at all; the model's lifetimes are per provider)",
+               "token values are abstracted to minting-order identifiers (byte-level token formats are property C04)",
                "client authentication at the token endpoint succeeds for the authenticating client (property C01)",
                "ID Token signing succeeds (keys configured)"]
 
@@ -30,7 +38,9 @@ class Oracle:
         k = op[0]
         if k in ("tparse", "rparse"):
             if len(rs.parsed) > len(self.parsed):
-                self.parsed.append((k, op[1], op[2], op[3] if len(op) > 3 else "same", rs.clock.now))
+                red = op[3] if len(op) > 3 else "same"
+                self.parsed.append((k, op[1], op[2], red, rs.clock.now,
+                                    rs.redirect_for(op[1], op[2], red) if k == "tparse" else None))
             if k == "tparse" and rs.oidc and op[2][0] == "tok":
                 t = rs.tokobj[op[2][1]]
                 if t.token_class == "authorization_code" and out[0] == "err" and self.success.get(op[2][1]):
@@ -40,7 +50,7 @@ class Oracle:
                     for key, tid in first.items():
                         self.probe_dead(rs, tid, "after OIDC replay of code %d" % op[2][1])
         if k == "proc" and out[0] == "ok" and op[1] < len(self.parsed):
-            kind, client, ref, red, t_parse = self.parsed[op[1]]
+            kind, client, ref, red, t_parse, sent_uri = self.parsed[op[1]]
             if kind != "tparse":
                 return
             if ref[0] != "tok":
@@ -58,6 +68,13 @@ class Oracle:
                 self.ctx.violation("cross-client", "code of %s exchanged by %s" % (owner, client), self.hist)
             if red != "same":
                 self.ctx.violation("redirect-mismatch", "code exchanged with redirect_uri variant %r" % red, self.hist)
+            # the redirect_uri of the token request is the one that went out in the authorization request that produced THIS
+            # code (what the harness sent then - not what the provider has on record now)
+            issued_for = rs.code_req.get(cid, {}).get("redirect_uri")
+            if issued_for is not None and sent_uri != issued_for:
+                self.ctx.violation("redirect-mismatch", "code %d, issued on an authorization request with redirect_uri %s, was exchanged with redirect_uri %r"
+                                   % (cid, issued_for, sent_uri), self.hist)
+            self.ctx.count("exchange-with:" + ("the-code's-own-redirect_uri" if sent_uri == issued_for else "another-redirect_uri"))
             if code.expires_at and rs.clock.now > code.expires_at:
                 self.ctx.violation("expired-code", "code exchanged %d s after its expiry" % (rs.clock.now - code.expires_at), self.hist)
 
@@ -132,7 +149,10 @@ def run(ctx):
     def factory():
         return [Oracle(ctx)]
     n = 40 if ctx.quick else 1500
-    common.run_histories(ctx, n, (15, 60), factory, structured=structured_cases(ctx.quick, ctx.rng))
+    # the browser-session histories keep the scope fixed except for a few (C05 varies it); shapes: every third random history
+    # opens with a pending code and cookie-carrying authorization requests
+    common.run_histories(ctx, n, (15, 60), factory, structured=structured_cases(ctx.quick, ctx.rng) + common.cookie_structured(scope_variants=False),
+                         cookie=True, focus_of=lambda i: "cookie" if i % 3 == 1 else "mixed")
 
 
 def replay(ctx, rp):
